@@ -286,10 +286,19 @@ METHOD_TY = {
     'replace': 'str', 'format': 'str', 'decode': 'str', 'join': 'str', 'encode': 'bytes',
     'readline': 'bytes', 'read': 'bytes', 'split': 'list', 'find': 'int', 'index': 'int',
     'copy': 'list', 'to_bytes': 'bytes', 'get': 'unknown', 'getroot': 'obj', 'pop': 'unknown',
+    'partition': 'tuple', 'rpartition': 'tuple', 'splitlines': 'list', 'translate': 'str',
+    'removeprefix': 'str', 'removesuffix': 'str', 'title': 'str', 'capitalize': 'str',
+    'casefold': 'str', 'zfill': 'str', 'ljust': 'str', 'rjust': 'str', 'center': 'str',
+    'rfind': 'int', 'rindex': 'int', 'hex': 'str', 'bit_length': 'int',
 }
 PURE_METHODS = {'strip', 'lstrip', 'rstrip', 'lower', 'upper', 'replace', 'format', 'decode',
                 'encode', 'split', 'find', 'index', 'copy', 'to_bytes', 'startswith', 'endswith',
-                'isspace', 'join', 'get', 'getroot', 'isdigit', 'count'}
+                'isspace', 'join', 'get', 'getroot', 'isdigit', 'count', 'partition', 'rpartition',
+                'splitlines', 'translate', 'removeprefix', 'removesuffix', 'title', 'capitalize',
+                'casefold', 'zfill', 'ljust', 'rjust', 'center', 'rfind', 'rindex', 'isalpha',
+                'isalnum', 'isnumeric', 'isdecimal', 'isupper', 'islower', 'hex', 'bit_length',
+                'keys', 'values', 'items', 'union', 'intersection', 'difference', 'issubset',
+                'issuperset', 'isdisjoint', 'maketrans'}
 
 
 def type_of(v):
@@ -834,7 +843,7 @@ class Interp:
                 yield from self._raise_or(s, None)
                 continue
             items = self.literal_items(it)
-            if items is not None and len(items) <= 64:
+            if items is not None and len(items) <= getattr(self.hooks, 'unroll_cap', 64):
                 yield from self.unroll_for(node, items, 0, s)
             else:
                 yield from self.loop_havoc(node, s, iter_value=it)
@@ -1546,6 +1555,13 @@ class Interp:
             return neg(In(a, b))
         sym = {ast.Lt: '<', ast.LtE: '<=', ast.Gt: '>', ast.GtE: '>=', ast.Eq: '==',
                ast.NotEq: '!='}[type(op)]
+        if sym in ('==', '!=') and isinstance(a, COND_TYPES + (Const,)) and \
+                isinstance(b, COND_TYPES + (Const,)) and (isinstance(a, COND_TYPES) or
+                                                           isinstance(b, COND_TYPES)):
+            ca = a if isinstance(a, COND_TYPES) else Const(bool(a.v))
+            cb = b if isinstance(b, COND_TYPES) else Const(bool(b.v))
+            differ = OrC((AndC((ca, neg(cb))), AndC((neg(ca), cb))))
+            return differ if sym == '!=' else neg(differ)
         if isinstance(a, Tup) and isinstance(b, Tup) and a.items and len(a.items) == len(b.items) \
                 and sym in ('<', '<=', '>', '>=') and all(
                     isinstance(x, Sym) for x in a.items + b.items):
@@ -1560,7 +1576,29 @@ class Interp:
             a, b = ab
             if self.trace_arith:
                 s = s.note(('arith', type(node.op).__name__, node.lineno, self.cur.qualname))
+            if (isinstance(a, COND_TYPES) or isinstance(b, COND_TYPES)) and isinstance(
+                    node.op, (ast.Add, ast.Sub, ast.Mult)) and all(
+                        isinstance(x, COND_TYPES + (Sym, Const)) for x in (a, b)):
+                # arithmetic on truth values, e.g. the sign idiom (x > 0) - (x < 0): case split
+                yield from self._bool_arith(node, a, b, s)
+                continue
             yield from self.binop(node.op, a, b, s, node)
+
+    def _bool_arith(self, node, a, b, s):
+        def numeric(v, st):
+            if isinstance(v, COND_TYPES):
+                for t, s2 in self.branch(v, st):
+                    yield Sym.const(1 if t else 0), s2
+            elif isinstance(v, Const) and isinstance(v.v, bool):
+                yield Sym.const(int(v.v)), st
+            else:
+                yield v, st
+        for av, s1 in numeric(a, s):
+            for bv, s2 in numeric(b, s1):
+                if isinstance(av, Sym) and isinstance(bv, Sym):
+                    yield from self.binop(node.op, av, bv, s2, node)
+                else:
+                    yield Opaque('binop:' + type(node.op).__name__, (av, bv), 'num'), s2
 
     def binop(self, op, a, b, s, node=None):
         if isinstance(a, Sym) and isinstance(b, Sym):
@@ -1980,6 +2018,13 @@ class Interp:
             return [(Opaque('decode', (obj,), 'str'), st)]
         if isinstance(obj, Tup) and name == 'copy':
             return [(obj, st)]
+        if name == 'to_bytes' and isinstance(obj, Sym) and args and isinstance(args[0], Sym) \
+                and args[0].is_const() and 0 < args[0].const_value() <= 16:
+            # n abstract bytes byte#k of one conversion: a sequence with known length, so loops,
+            # enumerate(), len() and indexing over it are exact
+            conv = Opaque('m:to_bytes', (obj,) + tuple(args) + tuple(sorted(kwargs.items())), 'bytes')
+            n = int(args[0].const_value())
+            return [(Tup(tuple(Opaque('byte#%d' % k, (conv,), 'int') for k in range(n)), 'tuple'), st)]
         if isinstance(obj, DictV):
             if name == 'get' and 1 <= len(args) <= 2:
                 key = args[0]
@@ -2270,6 +2315,8 @@ def fold_cond(c):
                         '!=': v != 0}.get(c.op)
             return None
         if c.op in ('==', '!='):
+            if isinstance(a, Const) and isinstance(b, Const):
+                return (a.v == b.v) == (c.op == '==')
             if isinstance(a, Str) and isinstance(b, Str) and a.is_lit() and b.is_lit():
                 return (a.text() == b.text()) == (c.op == '==')
             if isinstance(a, Tup) and isinstance(b, Tup) and a.kind == b.kind:
